@@ -11,6 +11,7 @@
 package vgis3
 
 import (
+	"crypto/rand"
 	"fmt"
 	"io"
 	"net/http"
@@ -62,6 +63,65 @@ func (f *zc33FakeS3) ServeHTTP(w http.ResponseWriter, r *http.Request) {
 	w.WriteHeader(http.StatusOK)
 }
 
+// zc33Stream is an entropy source that hands out pairwise distinct 16-byte blocks: block k
+// (k = 1, 2, …) carries the number k at byte Pos (all other bytes zero), or in every byte when
+// Pos < 0.  Bits that a version-4 UUID overwrites (high nibble of byte 6, top two bits of
+// byte 8) are never used to tell blocks apart.  It stands in for crypto/rand.Reader while an
+// Upload runs, so a key generator that draws from crypto/rand is explored on enumerated
+// entropy as well (the generator of the unchanged tree reads no entropy at all).
+type zc33Stream struct {
+	Pos    int
+	blocks int
+	buf    []byte
+}
+
+func zc33Cap(i int) int {
+	switch i {
+	case 6:
+		return 4
+	case 8:
+		return 6
+	}
+	return 8
+}
+
+func (s *zc33Stream) block(k int) []byte {
+	b := make([]byte, 16)
+	if s.Pos < 0 {
+		for i := range b {
+			b[i] = byte(k)
+		}
+		b[1] ^= byte(k >> 8)
+		return b
+	}
+	for i, v := s.Pos, k; v > 0; i = (i + 1) % 16 {
+		c := zc33Cap(i)
+		b[i] |= byte(v & (1<<c - 1))
+		v >>= c
+	}
+	return b
+}
+
+func (s *zc33Stream) Read(p []byte) (int, error) {
+	for len(s.buf) < len(p) {
+		s.blocks++
+		s.buf = append(s.buf, s.block(s.blocks)...)
+	}
+	n := copy(p, s.buf)
+	s.buf = s.buf[n:]
+	if len(p)%16 == 0 {
+		s.buf = nil // whole blocks only: never let a reader straddle two blocks
+	}
+	return n, nil
+}
+
+func (s *zc33Stream) name() string {
+	if s.Pos < 0 {
+		return "entropy-differs-in-all-bytes"
+	}
+	return fmt.Sprintf("entropy-differs-in-byte-%d", s.Pos)
+}
+
 // zc33Steps is the clock alphabet: how far the clock has moved since the previous upload.
 var zc33Steps = []time.Duration{0, 1 * time.Nanosecond, 999 * time.Nanosecond, time.Microsecond, time.Millisecond}
 var zc33StepNames = []string{"+0", "+1ns", "+999ns", "+1us", "+1ms"}
@@ -90,11 +150,15 @@ func TestVerif_C33_S3(t *testing.T) {
 	}
 	maxN := venum.QT(3, 5)
 	base := time.Unix(1_700_000_000, 0).UTC()
+	phases := venum.QT([]time.Duration{0, 999}, []time.Duration{0, 500, 999})
+	positions := venum.QT([]int{15, -1}, []int{0, 15, -1})
+	realRand := rand.Reader
 
 	venum.Explore(t, venum.Cfg{Name: "s3-upload-sequences", Shardable: true, DevBound: -1, CheckDeterminism: true}, func(x *venum.X) {
-		cfgSel := x.Choose(6, "config(prefix x clock-phase)")
+		cfgSel := x.Choose(2*len(phases)*len(positions), "config(prefix x clock-phase x entropy-stream)")
 		prefix := []string{"", "p/"}[cfgSel%2]
-		phase := []time.Duration{0, 500, 999}[cfgSel/2] // position of the first reading inside its microsecond
+		phase := phases[cfgSel/2%len(phases)] // position of the first reading inside its microsecond
+		stream := &zc33Stream{Pos: positions[cfgSel/2/len(phases)]}
 		n := 1 + x.Choose(maxN, "uploads")
 
 		fake.reset()
@@ -110,9 +174,10 @@ func TestVerif_C33_S3(t *testing.T) {
 			wantPrefix = "vgi-rpc/"
 		}
 		type up struct {
-			at   time.Time
-			key  string
-			step string
+			at     time.Time
+			key    string
+			step   string
+			blocks int // entropy blocks read from crypto/rand while this upload ran
 		}
 		var ups []up
 		for i := 0; i < n; i++ {
@@ -121,8 +186,10 @@ func TestVerif_C33_S3(t *testing.T) {
 			at := vsched.Now()
 			payload := fmt.Sprintf("payload-%d", i)
 			enc := []string{"", "zstd"}[i%2]
-			before := len(fake.puts)
+			before, b0 := len(fake.puts), stream.blocks
+			rand.Reader = stream
 			u, err := st.Upload([]byte(payload), nil, enc)
+			rand.Reader = realRand
 			if err != nil {
 				venum.EngineError("Upload %d failed against the fake endpoint: %v (bad=%v)", i, err, fake.bad)
 				return
@@ -140,7 +207,7 @@ func TestVerif_C33_S3(t *testing.T) {
 			if pu, perr := url.Parse(u); perr != nil || strings.TrimPrefix(pu.Path, "/bkt/") != p.Key {
 				x.Note("upload %d: presigned URL %q does not name key %q", i, u, p.Key)
 			}
-			ups = append(ups, up{at: at, key: p.Key, step: zc33StepNames[d]})
+			ups = append(ups, up{at: at, key: p.Key, step: zc33StepNames[d], blocks: stream.blocks - b0})
 		}
 
 		// Oracle: keys pairwise distinct.
@@ -151,9 +218,6 @@ func TestVerif_C33_S3(t *testing.T) {
 		var part []string
 		for _, idx := range classes {
 			part = append(part, fmt.Sprint(idx))
-			if len(idx) < 2 {
-				continue
-			}
 		}
 		sort.Strings(part)
 		for i := 0; i < len(ups); i++ {
@@ -162,18 +226,19 @@ func TestVerif_C33_S3(t *testing.T) {
 					continue
 				}
 				gap := ups[j].at.Sub(ups[i].at)
-				class := "clock-apart>=1us"
-				switch {
-				case gap == 0:
-					class = "same-instant"
-				case gap < time.Microsecond:
-					class = "same-microsecond"
-				case ups[i].at.Truncate(time.Microsecond).Equal(ups[j].at.Truncate(time.Microsecond)):
-					class = "same-microsecond"
+				class := stream.name() // both uploads drew (distinct) entropy and still collided
+				if ups[i].blocks == 0 || ups[j].blocks == 0 {
+					class = "clock-apart>=1us"
+					if gap == 0 {
+						class = "same-instant"
+					} else if ups[i].at.Truncate(time.Microsecond).Equal(ups[j].at.Truncate(time.Microsecond)) {
+						class = "same-microsecond"
+					}
 				}
 				x.Failf("C33:s3:key-reused:"+class,
-					"uploads #%d and #%d (clock readings %d ns apart: %s vs %s) both wrote object key %q: payload-%d was overwritten by payload-%d",
-					i, j, gap.Nanoseconds(), ups[i].at.Format("15:04:05.000000000"), ups[j].at.Format("15:04:05.000000000"), ups[i].key, i, j)
+					"uploads #%d and #%d (clock readings %d ns apart: %s vs %s; entropy blocks read: %d and %d) both wrote object key %q: payload-%d was overwritten by payload-%d",
+					i, j, gap.Nanoseconds(), ups[i].at.Format("15:04:05.000000000"), ups[j].at.Format("15:04:05.000000000"),
+					ups[i].blocks, ups[j].blocks, ups[i].key, i, j)
 			}
 		}
 		// Outcome: what the code did, without the key text of a (possibly random) generator:
@@ -183,6 +248,10 @@ func TestVerif_C33_S3(t *testing.T) {
 			k := ups[0].key
 			shape = fmt.Sprintf("prefix-ok=%v len=%d", strings.HasPrefix(k, wantPrefix), len(k)-len(wantPrefix))
 		}
-		x.Outcome("n=%d prefix=%q partition=%v %s", n, prefix, part, shape)
+		entropy := true
+		for _, u := range ups {
+			entropy = entropy && u.blocks > 0
+		}
+		x.Outcome("n=%d prefix=%q partition=%v entropy-read=%v %s", n, prefix, part, entropy, shape)
 	})
 }
